@@ -1,8 +1,141 @@
+(* C19 property theorems: benchmark runs are exactly-once, resumable and store what was actually
+   predicted.  Statements only, closed by `exact`, each followed by Print Assumptions.
+   `run fitf predf hdd fl fail l st` is Orchestrator.fit_predict over the task list `l`
+   (datasets x strategies x folds in iteration order) on the store `st`, with abstract
+   deterministic estimators `fitf` / `predf` (all theorems are for ALL such functions), backend
+   hdd = true (HDDResults) / false (RAMResults), flags `fl`, and `fail` = the k-th fit / predict
+   call raising.  It returns the new store, the event log (fit calls, predict calls, writes) and
+   the outcome. *)
 From Coq Require Import ZArith List Bool.
-Require Import SkV.Lib.Base SkV.Lib.ZRange SkV.C19.Model SkV.C19.Proofs.
+Require Import SkV.Lib.Base SkV.Lib.ZRange SkV.C19.Model SkV.C19.Store SkV.C19.Proofs.
 Import ListNotations.
 Open Scope Z_scope.
 
-Theorem C19_tmp : forall k, key_eqb k k = true.
-Proof. exact key_eqb_refl. Qed.
-Print Assumptions C19_tmp.
+(* exactly one record per strategy, dataset, fold and requested train/test part (and fitted
+   strategy, if saved) after an uninterrupted run - on either backend, with any legal flags, from
+   any well-formed store - and nothing else is added *)
+Theorem C19_exactly_once : forall fitf predf hdd fl l st st' ev out,
+  legal hdd fl -> wf (sfiles st) ->
+  run fitf predf hdd fl None l st = (st', ev, out) ->
+  out = Done /\ wf (sfiles st') /\
+  (forall t it, In t l -> requested fl it = true -> nkeys (tkey t it) (sfiles st') = 1%nat) /\
+  (forall k, fhas k (sfiles st') = true ->
+     fhas k (sfiles st) = true \/ exists t it, In t l /\ requested fl it = true /\ k = tkey t it).
+Proof. exact run_exactly_once. Qed.
+Print Assumptions C19_exactly_once.
+
+(* the records are what fitting a clone on the fold's training instances and predicting the
+   recorded instances gives: honesty is an invariant of every run, whatever the flags and wherever
+   it fails (so the partial store of a crashed run is honest too) *)
+Theorem C19_records_are_honest : forall fitf predf hdd fl fail l st st' ev out,
+  distinct l -> honest fitf predf l (sfiles st) ->
+  run fitf predf hdd fl fail l st = (st', ev, out) ->
+  honest fitf predf l (sfiles st').
+Proof. exact run_honest. Qed.
+Print Assumptions C19_records_are_honest.
+
+(* ... hence after an uninterrupted run every requested record is exactly (index, y_true, y_pred)
+   of fit-then-predict on that fold *)
+Theorem C19_records_equal_fit_then_predict : forall fitf predf hdd fl l st st' ev out,
+  legal hdd fl -> distinct l -> honest fitf predf l (sfiles st) ->
+  run fitf predf hdd fl None l st = (st', ev, out) ->
+  forall t it, In t l -> requested fl it = true ->
+    fget (tkey t it) (sfiles st') = Some (expect fitf predf t it).
+Proof. exact run_records. Qed.
+Print Assumptions C19_records_equal_fit_then_predict.
+
+(* read back = stored: a written entry reads back as written and no other entry changes;
+   load_predictions returns exactly the stored records of the registered strategy x dataset
+   pairs, and fails iff one of them is missing *)
+Theorem C19_read_back_equals_stored : forall k v st,
+  fget k (sfiles (write k v st)) = Some v /\
+  forall k', k' <> k -> fget k' (sfiles (write k v st)) = fget k' (sfiles st).
+Proof. exact read_back_write. Qed.
+Print Assumptions C19_read_back_equals_stored.
+
+Theorem C19_load_predictions_returns_stored : forall st f it,
+  (forall recs, load st f it = Some recs ->
+     map fst recs = list_prod (snames st) (dnames st) /\
+     forall s d c, In (s, d, c) recs -> fget (s, d, f, it) (sfiles st) = Some c) /\
+  (load st f it = None <->
+     exists s d, In s (snames st) /\ In d (dnames st) /\ fget (s, d, f, it) (sfiles st) = None).
+Proof. intros st f it. split; [intro recs; apply load_spec|apply load_none]. Qed.
+Print Assumptions C19_load_predictions_returns_stored.
+
+(* a run that fails at ANY fit or predict call leaves every existing entry as it was, writes only
+   requested entries that were missing, and never writes the master file *)
+Theorem C19_crash_keeps_completed : forall fitf predf fl fail l st st1 ev1,
+  noow fl -> run fitf predf true fl fail l st = (st1, ev1, Crash) ->
+  master st1 = master st /\
+  (forall k c, fget k (sfiles st) = Some c -> fget k (sfiles st1) = Some c) /\
+  (forall k, In k (writes_of ev1) ->
+     fhas k (sfiles st) = false /\ exists t it, In t l /\ requested fl it = true /\ k = tkey t it).
+Proof. exact run_crash_keeps. Qed.
+Print Assumptions C19_crash_keeps_completed.
+
+(* resume: for EVERY failure point, every task list, every initial store, every legal flag
+   combination without overwriting, and both a fresh and the same results object (b):
+   the second run completes; the final store equals that of the uninterrupted run; completed
+   records and saved fitted strategies are neither modified (same content, no write) nor
+   recomputed (no predict call); exactly the missing requested entries are produced, each once;
+   fits happen only for tasks that lack something *)
+Theorem C19_resume_completes : forall fitf predf fl fail l st st1 ev1 (b : bool) st2 ev2 out2,
+  noow fl ->
+  run fitf predf true fl fail l st = (st1, ev1, Crash) ->
+  run fitf predf true fl None l (if b then fresh true st1 else st1) = (st2, ev2, out2) ->
+  out2 = Done /\
+  sfiles st2 = sfiles (fst (fst (run fitf predf true fl None l st))) /\
+  (forall k c, fget k (sfiles st1) = Some c ->
+     fget k (sfiles st2) = Some c /\ ~ In k (writes_of ev2) /\
+     (forall x, In x (preds_of ev2) -> ikey x <> k)) /\
+  (forall t it, In t l -> requested fl it = true -> fhas (tkey t it) (sfiles st1) = false ->
+     In (tkey t it) (writes_of ev2)) /\
+  (forall k, In k (writes_of ev2) ->
+     fhas k (sfiles st1) = false /\ exists t it, In t l /\ requested fl it = true /\ k = tkey t it) /\
+  NoDup (writes_of ev2) /\
+  (forall t, In t (fits_of ev2) ->
+     In t l /\ exists it, requested fl it = true /\ fhas (tkey t it) (sfiles st1) = false).
+Proof. exact run_resume. Qed.
+Print Assumptions C19_resume_completes.
+
+(* a further identical run performs no fit, no predict and no write, and changes nothing *)
+Theorem C19_third_run_no_fits : forall fitf predf fl l st st1 ev1 (b : bool) st2 ev2 out2,
+  noow fl ->
+  run fitf predf true fl None l st = (st1, ev1, Done) ->
+  run fitf predf true fl None l (if b then fresh true st1 else st1) = (st2, ev2, out2) ->
+  out2 = Done /\ ev2 = [] /\ sfiles st2 = sfiles st1.
+Proof. exact run_third. Qed.
+Print Assumptions C19_third_run_no_fits.
+
+(* a run with overwriting enabled recomputes every record: exactly one fit per task in order, one
+   predict and one write per task and requested part, and the records are the honest ones whatever
+   the store contained before *)
+Theorem C19_overwrite_recomputes_all : forall fitf predf hdd fl l st st' ev out,
+  ow_pred fl = true -> legal hdd fl ->
+  run fitf predf hdd fl None l st = (st', ev, out) ->
+  out = Done /\ fits_of ev = l /\
+  preds_of ev = flat_map (fun t => (if on_train fl then [(t, ITrain)] else []) ++ [(t, ITest)]) l /\
+  (forall t it, In t l -> it <> IFit -> requested fl it = true ->
+     In (t, it) (preds_of ev) /\ In (tkey t it) (writes_of ev)) /\
+  (distinct l -> forall t it, In t l -> it <> IFit -> requested fl it = true ->
+     fget (tkey t it) (sfiles st') = Some (expect fitf predf t it)).
+Proof. exact run_overwrite. Qed.
+Print Assumptions C19_overwrite_recomputes_all.
+
+(* overwrite_fitted_strategies without save_fitted_strategies is refused before anything happens *)
+Theorem C19_illegal_flags_rejected : forall fitf predf hdd fl fail l st,
+  ow_fit fl = true -> save_fit fl = false ->
+  run fitf predf hdd fl fail l st = (st, [], Rejected).
+Proof. exact run_rejects. Qed.
+Print Assumptions C19_illegal_flags_rejected.
+
+(* the hypotheses are satisfiable by a non-trivial instance: 2 strategies x 1 dataset x 2 folds,
+   all options on, the 3rd predict call fails after 4 entries were written and 2 fits made; the
+   uninterrupted run stores 12 entries *)
+Example C19_nonvacuous :
+  noow ex_flags /\ legal true ex_flags /\ distinct ex_tasks /\ length ex_tasks = 4%nat /\
+  (exists st1 ev1, run ex_fit ex_pred true ex_flags (Some (false, 3)) ex_tasks empty_store = (st1, ev1, Crash)
+     /\ length (sfiles st1) = 4%nat /\ length (fits_of ev1) = 2%nat) /\
+  (exists st ev, run ex_fit ex_pred true ex_flags None ex_tasks empty_store = (st, ev, Done)
+     /\ length (sfiles st) = 12%nat).
+Proof. exact ex_nonvacuous. Qed.
